@@ -7,6 +7,9 @@ ZB = "clematis/engine/stages/t3/bundle.py"
 ZP = "clematis/engine/stages/t3/policy.py"
 ZO = "clematis/engine/orchestrator/core.py"
 CASES = [
+    ("speak-budget-truthiness", "mutant", "clematis/engine/stages/t3/dialogue.py", [("        utter = core\n        style_used = bool(style_prefix)\n\n    max_tokens = 256\n    if speak_op is not None and getattr(speak_op, \"max_tokens\", None) is not None:  # 0 is a budget, not \"unset\"\n", "        utter = core\n        style_used = bool(style_prefix)\n\n    max_tokens = 256\n    if speak_op and getattr(speak_op, \"max_tokens\", None):\n")], None, "C13.TOK"),
+    ("sanitize-plan-unnarrowed", "mutant", "clematis/engine/policy/sanitize.py", "    if plan_dict is not None and not isinstance(plan_dict, dict):\n        # wrong top-level type (an array, a string, a number): reject, never raise\n        errors.append(\"plan must be an object\")\n        return {\"reflection\": False}\n", "", "C13.TOTAL"),
+    ("sanitize-plan-narrowed-by-try", "twin", "clematis/engine/policy/sanitize.py", "    out = {} if plan_dict is None else dict(plan_dict)\n", "    try:\n        out = {} if plan_dict is None else dict(plan_dict)\n    except Exception:\n        errors.append(\"plan must be an object\")\n        return {\"reflection\": False}\n", None),
     ("cap-truncation-dropped", "mutant", P, "    if len(ops) > caps_ops:\n        ops = ops[:caps_ops]\n\n    return Plan(version=\"t3-plan-v1\", reflection=False, ops=ops, request_retrieve=None)", "    return Plan(version=\"t3-plan-v1\", reflection=False, ops=ops, request_retrieve=None)", "C13.CAP"),
     ("cap-ignores-slice", "mutant", P, "    caps_ops = min(base_ops, slice_cap)\n    tokens = int(cfg_t3.get(\"tokens\", 256))\n", "    caps_ops = base_ops\n    tokens = int(cfg_t3.get(\"tokens\", 256))\n", "C13.CAP"),
     ("append-after-truncation", "mutant", P, "    if len(ops) > caps_ops:\n        ops = ops[:caps_ops]\n\n    return Plan(version=\"t3-plan-v1\"", "    if len(ops) > caps_ops:\n        ops = ops[:caps_ops]\n    ops.append(SpeakOp(kind=\"Speak\", intent=\"ack\", topic_labels=[], max_tokens=tokens))\n\n    return Plan(version=\"t3-plan-v1\"", "C13.CAP"),
